@@ -947,11 +947,25 @@ pub async fn run_op2(ctx: &Ctx, op: AOp, info: &Rc<TaskInfo>, handle: Handle) {
                     }
                 }
                 // Restarted for current entities: exactly what exists now, nothing stale.
-                if blocked(info, "BusListener::stop", true, l0.stop()).await.is_err() {
+                if (op.b >> 7) % 3 == 0 && !ctx.no_cancel.get() {
+                    // The stop request is abandoned after one poll; it still takes effect (the
+                    // barrier makes sure the broker and the client have processed it).
+                    let _ = crate::api_app::cancelling(info, l0.stop(), 1).await;
+                    ctx.probe("listener-stop-cancelled");
+                    if blocked(info, "Handle::sync_broker", true, handle.sync_broker()).await.is_err() {
+                        return;
+                    }
+                } else if blocked(info, "BusListener::stop", true, l0.stop()).await.is_err() {
                     return;
                 }
                 if blocked(info, "BusListener::start", true, l0.start(aldrin_core::BusListenerScope::Current)).await.is_err() {
                     return;
+                }
+                if (op.b >> 9) % 2 == 1 {
+                    // Filters changed right after the start: what the broker enumerated at start time
+                    // must still be reported.
+                    let _ = l0.remove_filter(aldrin_core::BusListenerFilter::object(mine));
+                    ctx.probe("listener-filter-removed-after-start");
                 }
                 let mut got0 = Vec::new();
                 while let Some(ev) = blocked(info, "BusListener::next_event", true, l0.next_event()).await {
